@@ -196,4 +196,80 @@ theorem inputHours_ok_iff (t : Nat) : ∀ (ins : List In) (acc s : Nat), acc < 2
             obtain ⟨rfl, _⟩ := hf
             simp at hs2; omega
 
+/-! ### closed forms of the fee path -/
+
+theorem transactionFee_closed (t : Nat) (ins : List In) (outs : List Out) (hs : List Nat)
+    (hh : HoursAre t ins hs) (hfit : hs.sum < 2^64) :
+    transactionFee specPrims t ins outs =
+      if ¬ sumOut outs < 2^64 then .err ovfErr
+      else if hs.sum < sumOut outs then .err (.named "ErrTxnInsufficientCoinHours")
+      else .ok (hs.sum - sumOut outs) := by
+  have h0 : (0 : Nat) < 2^64 := Nat.two_pow_pos 64
+  have hI : inputHours specPrims t ins 0 = .ok hs.sum :=
+    (inputHours_ok_iff t ins 0 hs.sum h0).2 ⟨hs, hh, by simp, hfit⟩
+  unfold transactionFee
+  rw [hI, outputHours_spec outs 0 h0, Nat.zero_add]
+  by_cases h2 : sumOut outs < 2^64
+  · rw [if_pos h2, if_neg (fun hn => hn h2)]
+    dsimp only
+    by_cases h3 : hs.sum < sumOut outs
+    · rw [if_pos h3, if_pos h3]
+    · rw [if_neg h3, if_neg h3]
+      congr 1; unfold sub64; omega
+  · rw [if_neg h2, if_pos h2]
+
+theorem verifyTransactionFee_closed (outs : List Out) (f burn : Nat) :
+    verifyTransactionFee specPrims outs f burn =
+      if ¬ sumOut outs < 2^64 then .err ovfErr else specVerifyFee (sumOut outs) f burn := by
+  unfold verifyTransactionFee
+  rw [outputHours_spec outs 0 (Nat.two_pow_pos 64), Nat.zero_add]
+  by_cases h2 : sumOut outs < 2^64
+  · rw [if_pos h2, if_neg (fun hn => hn h2)]; rfl
+  · rw [if_neg h2, if_pos h2]
+
+theorem specVerifyFee_closed (hin hout burn : Nat) (hle : hout ≤ hin) (hfit : hin < 2^64) (hb : 2 ≤ burn) :
+    specVerifyFee hout (hin - hout) burn =
+      if hin - hout = 0 then .err (.named "ErrTxnNoFee")
+      else if hin - hout < ceilDiv hin burn then .err (.named "ErrTxnInsufficientFee")
+      else .ok () := by
+  unfold specVerifyFee
+  have htot : hout + (hin - hout) = hin := by omega
+  by_cases h4 : hin - hout = 0
+  · rw [if_pos h4, if_pos h4]
+  · rw [if_neg h4, if_neg h4, htot, if_neg (by omega), if_neg (by omega)]
+
+theorem isLocked_closed (d : Dist) (ins : List In) (hd : d.unlocked ≤ d.n) :
+    isLocked d ins = .ok (spendsLocked d ins) := by
+  unfold isLocked; rw [if_neg (by omega)]
+
+theorem precisionAll_ok_iff (prec : Nat) (hp : prec ≤ 6) : ∀ outs : List Out,
+    precisionAll specPrims prec outs = .ok () ↔ ∀ o ∈ outs, o.coins % 10 ^ (6 - prec) = 0
+  | [] => by simp [precisionAll]
+  | o :: r => by
+    simp only [precisionAll, specPrims, specPrecisionCheck, show ¬ prec > 6 by omega, if_false]
+    by_cases h : o.coins % 10 ^ (6 - prec) = 0
+    · simp only [h, ne_eq, not_true, if_false]
+      have ih := precisionAll_ok_iff prec hp r
+      simp only [specPrims] at ih
+      rw [ih]
+      simp [h]
+    · simp only [h, ne_eq, not_false_eq_true, if_true]
+      constructor
+      · intro hc; cases hc
+      · intro hall; exact absurd (hall o (List.mem_cons_self ..)) h
+
+/-- a precision failure is reported as ErrInvalidDecimals (never anything else, never a panic) -/
+theorem precisionAll_cases (prec : Nat) (hp : prec ≤ 6) : ∀ outs : List Out,
+    precisionAll specPrims prec outs = .ok () ∨
+    precisionAll specPrims prec outs = .err (.named "ErrInvalidDecimals")
+  | [] => Or.inl rfl
+  | o :: r => by
+    simp only [precisionAll, specPrims, specPrecisionCheck, show ¬ prec > 6 by omega, if_false]
+    by_cases h : o.coins % 10 ^ (6 - prec) = 0
+    · simp only [h, ne_eq, not_true, if_false]
+      have ih := precisionAll_cases prec hp r
+      simp only [specPrims] at ih
+      exact ih
+    · simp [h]
+
 end Sky.C11
